@@ -1373,8 +1373,11 @@ pub fn s_dirent_metadata(e: &DirEntry) -> io::Result<Metadata> {
 pub fn s_dirent_file_name(e: &DirEntry) -> OsString {
     let (d, s) = dirent_id(e);
     let mut v: Vec<u8> = Vec::with_capacity(16);
-    // constant length, symbolic bytes (the crate never asks for the name of a subdirectory)
-    assert!((s as usize) < NS, "KV-MODEL: file_name() of the .kismet_temp entry is not modelled");
+    if s as usize == NS {
+        v.extend_from_slice(b".kismet_temp");
+        return OsString::from_vec(v);
+    }
+    // constant length, symbolic bytes
     let nm = slot_name(dir_kind(d), s);
     v.push(nm[0]);
     v.push(nm[1]);
